@@ -382,22 +382,21 @@ theorem parse_files (hk : HooksOK h) : ∀ (fs : List CFile) (off length : Nat),
     costFiles fs ≤ fuel → st.pol = 0xFF →
     data.drop (alignUp off 8) = tailFiles off (flatFiles fs) free → data.length = length →
     length = endFiles off (flatFiles fs) + free → length % 8 = 0 → length < 2 ^ 62 → 24 ≤ length →
-    (endFiles off (flatFiles fs) + 24 < length → alignUp (endFiles off (flatFiles fs)) 8 + 32 ≤ length) →
     parseFiles h fuel data off ((length + 18446744073709551616 - 24) % 18446744073709551616) length st =
       .ok (treeFiles fs, (if endFiles off (flatFiles fs) + 24 ≤ length then
         length - alignUp (endFiles off (flatFiles fs)) 8 else 0), st)
-  | [], off, length, _, fuel, data, free, st, hf, _, hd, hlen, hl, h8, hlt, h24, htail => by
-    simp only [flatFiles, endFiles] at hl htail hd ⊢
+  | [], off, length, _, fuel, data, free, st, hf, _, hd, hlen, hl, h8, hlt, h24 => by
+    simp only [flatFiles, endFiles] at hl hd ⊢
     exact NestedBase.parseFiles_nil fuel data off length free st (by simpa [costFiles] using hf) hd hlen hl h8 hlt
-      h24 htail
-  | f :: fs, off, length, hw, fuel, data, free, st, hf, hp, hd, hlen, hl, h8, hlt, h24, htail => by
+      h24
+  | f :: fs, off, length, hw, fuel, data, free, st, hf, hp, hd, hlen, hl, h8, hlt, h24 => by
     obtain ⟨fu, rfl, hf'⟩ := fuel_succ hf (by simp only [costFiles]; omega)
     simp only [costFiles] at hf'
     obtain ⟨hwf, hhdr, hfit, _, hrest⟩ := wfFiles_cons hw
     have hal := alignUp_ge off 8 (by decide)
     have hlh : (length + 18446744073709551616 - 24) % 18446744073709551616 = length - 24 := by omega
     have hsz := sizeFile_ge (flatFile f)
-    simp only [flatFiles] at hd hl htail ⊢
+    simp only [flatFiles] at hd hl ⊢
     rw [parseFiles, hlh, if_pos (show off ≤ length - 24 by omega)]
     simp only [align8_eq off (by omega)]
     rw [if_neg (show ¬ data.length ≤ alignUp off 8 by omega), hd, tailFiles_cons,
@@ -413,9 +412,9 @@ theorem parse_files (hk : HooksOK h) : ∀ (fs : List CFile) (off length : Nat),
       rw [e, ← List.drop_drop, hd, tailFiles_cons, ← List.drop_drop,
         drop_append_len _ _ _ (length_serFile f hwf)]
       rfl
-    simp only [endFiles] at hl htail ⊢
+    simp only [endFiles] at hl ⊢
     rw [← hlh, parse_files hk fs (alignUp off 8 + sizeFile (flatFile f)) length hrest fu data free st (by omega) hp hd'
-      hlen hl h8 hlt h24 htail]
+      hlen hl h8 hlt h24]
     rfl
 
 theorem parse_fv (hk : HooksOK h) : ∀ (v : CFv), wfFv h v = true →
@@ -464,7 +463,7 @@ theorem parse_fv (hk : HooksOK h) : ∀ (v : CFv), wfFv h v = true →
         simp only [List.length_append, fvHeaderCk_length _ _ _ _ _ _ _ _ w.hzv (guid_v3_length v3)]; exact hpre
       exact drop_append_len _ _ _ hA
     rw [parse_files hk files (preLen blocks ext) _ hfiles fu _ free { st with pol := 0xFF } hf' rfl hd hlen rfl
-      w.hlen8 (by have := w.hlenlt; omega) (by have := w.hlen64; omega) w.htail]
+      w.hlen8 (by have := w.hlenlt; omega) (by have := w.hlen64; omega)]
     rfl
   | .other v, hw, fuel, rest, off, rz, st, hf, hp => by
     simp only [wfFv, Bool.and_eq_true] at hw
